@@ -103,6 +103,12 @@ def scenarios():
                               expect_gen_err=True))
             S.append(Scenario("noargs-" + tag, out=out, rm=rm, pkg=pkg, args=(), prior="own"))
             S.append(Scenario("outisdir-" + tag, out=out, rm=rm, pkg=pkg, fault="out-is-dir"))
+        if not rm:
+            for nm, fl in (("stub", ["-stub"]), ("skip", ["-skip-ensure"]), ("resets", ["-with-resets"]),
+                           ("fmtnoop", ["-fmt", "noop"]), ("fmtgoimports", ["-fmt", "goimports"]),
+                           ("fmtgofmt", ["-fmt", "gofmt"]), ("all", ["-stub", "-skip-ensure", "-with-resets"])):
+                S.append(Scenario("flag-" + nm, out="store_moq.go", flags=fl))
+                S.append(Scenario("flag-" + nm + "-stdout", out=None, flags=fl, args=("Store", "Lister:L2")))
         S.append(Scenario("parentisfile" + ("-rm" if rm else ""), out="blocker/x_moq.go", rm=rm, pkg="blocker",
                           fault="parent-is-file"))
         S.append(Scenario("syntaxerr" + ("-rm" if rm else ""), out="store_moq.go", rm=rm, prior="own",
@@ -196,7 +202,7 @@ def run_one(tools, base, sc, ref_cache):
         out_after = open(outabs).read()
     obs = dict(name=sc.name, out=sc.out, rm=sc.rm, args=sc.args, flags=base_flags, prior=sc.prior, fault=sc.fault,
                rc=rc, stdout=so, stderr=se, changed=diff(before, after), out_after=out_after,
-               prior_content=prior_content, ref_rc=ref[0], ref_stdout=ref[1], root=root,
+               prior_content=prior_content, ref_rc=ref[0], ref_stdout=ref[1], ref_stdout_full=ref[1], root=root,
                out_matches_ref=(out_after == ref[1]) if (rc == 0 and outabs and ref[0] == 0) else None)
     # a second run in place: regeneration over moq's own output (C15)
     if rc == 0 and outabs and sc.fault is None:
@@ -327,6 +333,39 @@ def run(tools, seed, tier):
                 futs = [ex.submit(run_one, tools, os.path.join(base, "w"), sc, ref_cache) for sc in scs]
                 for f in futs:
                     obs.append(f.result())
+            # flag wiring: what the CLI printed must be what the LIBRARY produces for the configuration
+            # the flags are documented to select
+            libcases, seen = [], {}
+            libdir = os.path.join(base, "lib", "store")
+            os.makedirs(libdir)
+            with open(os.path.join(base, "lib", "go.mod"), "w") as f:
+                f.write("module example.com/l3\n\ngo 1.24\n")
+            with open(os.path.join(libdir, "store.go"), "w") as f:
+                f.write(SRC)
+            for o in obs:
+                key = json.dumps([o["flags"], o["args"]])
+                if key in seen or not o["args"]:
+                    continue
+                fl = o["flags"]
+                fmtv = fl[fl.index("-fmt") + 1] if "-fmt" in fl else ""
+                pkgv = fl[fl.index("-pkg") + 1] if "-pkg" in fl else ""
+                seen[key] = "lib%d" % len(libcases)
+                libcases.append(dict(id=seen[key], dir=libdir, pkg=pkgv, stub="-stub" in fl, skip="-skip-ensure" in fl,
+                                     resets="-with-resets" in fl, args=o["args"], formatter=fmtv))
+            lib = {}
+            if libcases:
+                from . import l2 as L2
+                for r in L2.run_impl(tools, libcases, base):
+                    lib[r["id"]] = r
+            for o in obs:
+                key = json.dumps([o["flags"], o["args"]])
+                r = lib.get(seen.get(key))
+                o["lib_kind"] = r["kind"] if r else None
+                o["lib_matches"] = None
+                if r and r["kind"] == "out" and o["ref_rc"] == 0:
+                    o["lib_matches"] = (r["text"] == o["ref_stdout_full"])
+                elif r and r["kind"] == "err" and o["ref_rc"] == 0:
+                    o["lib_matches"] = False
             items = [coq_case(o) for o in obs]
             pairs, errors = C.eval_shards("cli", CLI_HEADER, items, "map predict cases", nshards=4)
             pred = dict(pairs)
@@ -335,6 +374,7 @@ def run(tools, seed, tier):
                 o["observed"] = observed_summary(o)
                 o["stdout"] = o["stdout"][:400]
                 o["ref_stdout"] = o["ref_stdout"][:200]
+                o.pop("ref_stdout_full", None)
                 for k in ("out_after", "prior_content"):
                     if o.get(k):
                         o[k] = o[k][:200]
